@@ -431,8 +431,11 @@ Ltac decide_tests := repeat match goal with
   | |- context[Rleb ?a ?b] => first [rewrite (proj2 (Rleb_true a b)) by lra | rewrite (proj2 (Rleb_false a b)) by lra]
   | |- context[Reqb ?a ?b] => first [rewrite (proj2 (Reqb_true a b)) by lra | rewrite (Reqb_false a b) by lra]
   end.
-Ltac e2e := unfold fast_2d, fast_3d, mass_3d, mass_2d, mass_1d, margin_tail_integral, tail_val, margin, clayton, clayton_sum;
-  cbn -[Rpower Rabs]; repeat (decide_tests; cbn -[Rpower Rabs]); unfold Rpower.
+Ltac flags := repeat (cbn [is_some is_none olen Nat.ltb Nat.leb Nat.eqb andb orb negb length xlt0 xge0 xgt0 nltb nleb RNum n0 T]; decide_tests).
+Ltac e2e := unfold fast_2d, fast_3d; unfold mass_3d; flags; unfold mass_2d; flags; unfold mass_1d;
+  unfold margin_tail_integral, tail_val, nat_list_eqb; cbn [length seq Nat.eqb andb forallb combine fst snd map2];
+  unfold margin, complement, scatter; cbn -[Rpower Rabs clayton]; unfold clayton, clayton_sum; cbn -[Rpower Rabs];
+  repeat (decide_tests; cbn -[Rpower Rabs]); unfold Rpower.
 """
 
 
@@ -482,13 +485,20 @@ def _end_to_end(res, rng, viol):
         res.broke("correspondence end_to_end", "no end-to-end case was generated")
         return
     res.case_lemmas += len(lemmas)
-    rc, out = coq_eval_file(PROP, "end_to_end", E2E_HEADER + "\n".join(lemmas) + "\n", timeout=900)
-    if rc == 0:
-        res.case_ok += len(lemmas)
-        return
-    import re
-    m = re.search(r'case_(\d+)', out[out.find("Error"):] if "Error" in out else out)
-    res.broke("correspondence end_to_end", f"Interval could not certify the end-to-end model against model.mass: {out[-1200:]}")
+    from concurrent.futures import ThreadPoolExecutor
+    shards = [lemmas[i:i + 4] for i in range(0, len(lemmas), 4)]
+
+    def work(k):
+        rc, out = coq_eval_file(PROP, f"end_to_end_{k}", E2E_HEADER + "\n".join(shards[k]) + "\n", timeout=600)
+        return k, rc, out
+
+    with ThreadPoolExecutor(max_workers=10) as ex:
+        for k, rc, out in ex.map(work, range(len(shards))):
+            if rc == 0:
+                res.case_ok += len(shards[k])
+            else:
+                res.broke(f"correspondence end_to_end_{k}", "Interval could not certify the end-to-end model (Clayton + margin + mass) against "
+                          f"model.mass (rc={rc}): {out[-1200:]}; cases: {json.dumps(info[4 * k:4 * k + 4])[:1500]}")
 
 
 def _density_oracle(res, viol):
